@@ -69,6 +69,17 @@ class StateMeta(type):
 
         attributes: dict[str, StateAttribute[Any]] = {}
 
+        # keep type parameters of parametrized bases when subclassing
+        type_parameters = {
+            **{
+                key: value
+                for base in reversed(bases)
+                for key, value in getattr(base, "__TYPE_PARAMETERS__", {}).items()
+            },
+            **(type_parameters or {}),
+        }
+        state_type.__TYPE_PARAMETERS__ = type_parameters  # pyright: ignore[reportAttributeAccessIssue]
+
         if bases:  # handle base class
             for key, annotation in attribute_annotations(
                 state_type,
